@@ -19,6 +19,13 @@ CLASS_ATTR_TYPES = {
 }
 
 
+# A-classes: the protocol version constant of the message classes is not overridden
+CLASS_ATTR_FINAL = [
+    ('pjrpc.common.v20:Request', 'version'), ('pjrpc.common.v20:Response', 'version'),
+    ('pjrpc.common.v20:BatchRequest', 'version'), ('pjrpc.common.v20:BatchResponse', 'version'),
+]
+
+
 @contract('pjrpc.common.exceptions:JsonRpcError.from_json', props=['C06', 'C05'])
 class JsonRpcErrorFromJson:
     types = {'json_data': 'json', 'cls': 'type<=pjrpc.common.exceptions:JsonRpcError'}
@@ -40,3 +47,23 @@ class JsonRpcErrorFromJson:
     def ensures_class(cls, json_data, result):
         # C05: an error deserialises to the class registered for its code, else the supplied base class
         return class_is(result, JsonRpcErrorMeta.__errors_mapping__.get(member(json_data, 'code'), cls))
+
+
+@contract('pjrpc.common.exceptions:JsonRpcError.__init__', props=['C03', 'C05', 'C06'])
+class JsonRpcErrorInit:
+    """C03/C05: an error object carries exactly the code, message and data it was built with (0 and '' are
+    values, not 'missing'); only a missing (None) argument falls back to the class default."""
+    types = {'self': 'pjrpc.common.exceptions:JsonRpcError', 'code': 'opt:int', 'message': 'opt:str', 'data': 'any'}
+    raises_only = ('AssertionError',)
+    modifies = ('self.code', 'self.message', 'self.data', 'self.args')
+
+    def returns_iff(self, code, message, data):
+        # constructing fails only when neither the argument nor the class provides a code / message
+        return (code is not None or type(self).code is not None) and (message is not None or type(self).message is not None)
+
+    def ensures_fields(self, code, message, data, result):
+        return (
+            (same(self.code, code) if code is not None else same(self.code, type(self).code))
+            and (same(self.message, message) if message is not None else same(self.message, type(self).message))
+            and same(self.data, data)
+        )
